@@ -24,7 +24,8 @@ CASE_TIMEOUT = 300
 LEVEL = 'exploration'
 RULE = ('case = (grid shape incl. anisotropic and one-cell-thick z, dtype, sub-cell offset, weights, particle list biased '
         'to cell centres / half-cell edges / 0 / largest float below BoxSize / BoxSize / out of range with wrap, nthread, '
-        'npartition, supplied non-zero grid, schedule config). non-trivial = >= 1 particle on a boundary class and the '
+        'npartition, supplied non-zero grid, schedule config); sweep: 120 configurations (8 grid shapes x dtype x offset '
+        'class x kernel) each with one particle per combination of 7 (9 with wrap) boundary coordinates per axis. non-trivial = >= 1 particle on a boundary class and the '
         'configuration accepted; distinct = distinct (kind, shape, dtype, offset class, boundary classes present, '
         'weights, nthread, wrap, accumulate, policy, strategy)')
 COMPONENTS = {'real': ['analysis/tsc.py kernels as cooperative generators (all schedules) and compiled with nthread=1',
@@ -107,6 +108,52 @@ def gen(rng, tier):
             'npartition': None if rng.random() < 0.7 else rng.randrange(1, max(2, shape[0] // 3 + 1)),
             'coord': rng.choice([0, 0, 1, 2]), 'sort': rng.random() < 0.25, 'accumulate': rng.random() < 0.3, 'gseed': rng.randrange(1 << 20),
             'sched': gen_sched(rng), 'poison': rng.choice(['A', 'B'])}
+
+
+def sweep(tier):
+    """One particle for every combination of boundary coordinates per axis (0, largest float below BoxSize, BoxSize, a
+    cell centre, a half-cell edge, the float below that edge, the position that lands on the edge after the offset; with
+    wrap also one value on either side of the box), for a fixed family of grid shapes x offset classes x dtypes: the
+    boundary classes are enumerated here, the seeded cases sample around them."""
+    import itertools
+    import random
+    rng = random.Random(6)
+    shapes = [[4, 4, 4], [5, 3, 1], [2, 7, 3], [12, 2, 2], [3, 3, 3], [2, 2, 2], [6, 5, 4], [9, 4, 1]]
+    k = 0
+    for kind in ('tsc', 'cic'):
+        for shape in shapes:
+            for dtype in ('f4', 'f8'):
+                ft = _f(dtype)
+                for oc in (['0', 'half', 'rand', 'cell', 'neg-rand', 'neg-most'] if kind == 'tsc' else ['0', 'half']):
+                    if min(shape) < 2 and oc.startswith('neg'):
+                        continue
+                    k += 1
+                    box = [1.0, 2000.0, 123.456, 32.0][k % 4]
+                    h0 = box / (max(shape) if (k % 2 or oc.startswith('neg') or kind == 'cic') else shape[0])
+                    offset = {'0': 0.0, 'half': 0.5 * h0, 'rand': rng.random() * h0, 'cell': h0, 'neg-rand': -rng.random() * h0,
+                              'neg-most': -rng.uniform(0.55, 0.99) * h0}[oc]
+                    wrap = kind == 'tsc' and k % 3 == 0
+                    top = float(np.nextafter(ft(box), ft(0)))
+                    per_axis = []
+                    for ax in range(3):
+                        h = box / shape[ax]
+                        c = rng.randrange(shape[ax])
+                        edge = (c + 0.5) * h
+                        vals = [0.0, top, box, c * h, edge, float(np.nextafter(ft(edge), ft(0))), (edge - offset) % box]
+                        if wrap:
+                            vals += [-0.25 * h, box + 0.3 * h]
+                        vals = [float(ft(v)) for v in vals]
+                        if not wrap:
+                            vals = [min(max(v, 0.0), box) for v in vals]
+                        per_axis.append(vals)
+                    pos = [list(p) for p in itertools.product(*per_axis)]
+                    weights = None if k % 2 else [float(ft(rng.choice([1.0, 0.0, 2.5, rng.random()]))) for _ in pos]
+                    yield {'kind': kind, 'shape': shape, 'box': box, 'dtype': dtype, 'gdtype': ['f4', 'f8'][k % 2] if dtype == 'f8' else 'f4',
+                           'offset': offset, 'offset_cls': oc, 'wrap': wrap, 'pos': pos, 'weights': weights,
+                           'classes': ['boundary-product'], 'nthread': [1, 2, 3, 4, 8, 16][k % 6], 'npartition': None,
+                           'coord': k % 3, 'sort': k % 5 == 0, 'accumulate': k % 4 == 1, 'gseed': k,
+                           'sched': {'policy': ['static', 'cyclic', 'dynamic'][k % 3], 'strategy': 'random', 'p_switch': 0.2,
+                                     'pct_depth': 2, 'seed': k}, 'poison': 'AB'[k % 2]}
 
 
 def _touch(pos, shape, box, weights, offset, reach):
